@@ -11,7 +11,6 @@ import (
 	"crypto/tls"
 	"crypto/x509"
 	"crypto/x509/pkix"
-	"errors"
 	"fmt"
 	"io"
 	"math/big"
@@ -262,10 +261,80 @@ type c14Obs struct {
 var c14Tracked = []string{"Content-Encoding", "Content-Length", "X-Keep"}
 
 func c14TermReq(err error) string {
-	if err != nil && errors.Is(err, errReadOnClosedResBody) {
+	// "read on closed response body": recognised by its (observable) text, not by the name of
+	// the unexported variable that holds it
+	if err != nil && strings.Contains(err.Error(), "read on closed response body") {
 		return "err4"
 	}
 	return verifc14.Term(err)
+}
+
+// c14RawH1 is a one-response-per-connection HTTP/1.1 peer on loopback TCP: it lets a lane put
+// arbitrary bytes behind `Content-Encoding: gzip` with close-delimited framing (clean EOF where
+// the bytes end) or with a Content-Length larger than what is sent (the framing layer's
+// unexpected EOF), so that transport.go's own gzip reader is reached through the real code path
+// (persistConn.readLoop) instead of being constructed by hand.
+type c14RawH1 struct {
+	ln    net.Listener
+	mu    sync.Mutex
+	resps map[string][]byte
+}
+
+func c14NewRawH1(t *testing.T) *c14RawH1 {
+	ln, err := net.Listen("tcp", "127.0.0.1:0")
+	if err != nil {
+		t.Fatalf("infra: listen: %v", err)
+	}
+	p := &c14RawH1{ln: ln, resps: map[string][]byte{}}
+	go func() {
+		for {
+			conn, err := ln.Accept()
+			if err != nil {
+				return
+			}
+			go p.serve(conn)
+		}
+	}()
+	return p
+}
+
+func (p *c14RawH1) serve(conn net.Conn) {
+	defer conn.Close()
+	conn.SetDeadline(time.Now().Add(30 * time.Second))
+	var req []byte
+	buf := make([]byte, 4096)
+	for !bytes.Contains(req, []byte("\r\n\r\n")) {
+		n, err := conn.Read(buf)
+		if err != nil {
+			return
+		}
+		req = append(req, buf[:n]...)
+	}
+	line := string(req[:bytes.IndexByte(req, '\r')])
+	f := strings.Fields(line)
+	if len(f) < 2 {
+		return
+	}
+	p.mu.Lock()
+	resp := p.resps[f[1]]
+	delete(p.resps, f[1])
+	p.mu.Unlock()
+	conn.Write(resp)
+}
+
+// script registers the response for path and returns the URL.
+func (p *c14RawH1) script(path string, wire []byte, fin error) string {
+	var b bytes.Buffer
+	b.WriteString("HTTP/1.1 200 OK\r\nContent-Type: application/octet-stream\r\nContent-Encoding: gzip\r\nConnection: close\r\n")
+	if fin != io.EOF {
+		fmt.Fprintf(&b, "Content-Length: %d\r\n", len(wire)+17) // more than will ever come
+	}
+	b.WriteString("\r\n")
+	b.Write(wire)
+	p.mu.Lock()
+	p.resps[path] = b.Bytes()
+	p.mu.Unlock()
+	return "http://" + p.ln.Addr().String() + path
 }
 
 func (e *c14Env) run(c *c14Case) (o c14Obs) {
@@ -329,13 +398,31 @@ func (e *c14Env) run(c *c14Case) (o c14Obs) {
 	return
 }
 
-func (o c14Obs) answer() string {
+// corrupted: the encoded stream itself was damaged (bit flip, truncation with matching framing).
+func (c *c14Case) corrupted() bool { return c.stream == "flip" || c.stream == "trunc" }
+
+// flipUnchecked: a bit flip in a format without an integrity check (raw deflate, brotli) may
+// decode to anything - error, payload, or other bytes with a clean end, depending on the bit
+// and on how the input arrives. Nothing about the body can be judged; the decision, the headers
+// and the absence of a crash still are.
+func (c *c14Case) flipUnchecked() bool {
+	return c.stream == "flip" && (c.alg == "br" || c.alg == "deflate")
+}
+
+func (o c14Obs) answer(c *c14Case) string {
 	if o.rtErr != "" {
 		return "roundtrip-error"
 	}
 	body := "nil"
 	if !o.bodyNil {
 		body = verifc14.Digest(o.data, o.term)
+		if o.unc && c.flipUnchecked() {
+			body = "flip-unchecked"
+		} else if o.unc && c.corrupted() {
+			// decoded corrupted stream: {read error} and {exactly the original payload} are both
+			// admissible and which one a decoder gives may depend on how the bytes arrive
+			body = verifc14.CorruptDigest(o.data, o.term, c.payload)
+		}
 	}
 	unc := "0"
 	if o.unc {
@@ -384,8 +471,18 @@ func (c *c14Case) args() string {
 	return strings.Join([]string{c.proto, c14b(c.dc), c14b(c.auto), verifh.Hex(c.method), verifh.Hex(c.ae), verifh.Hex(c.rng),
 		c14b(c.hasBody()), verifh.HexList(c.sentHeader()), strconv.FormatInt(c.declaredLength(), 10),
 		verifc14.Digest(c.wireBody(), verifc14.Term(c.wireFin())),
-		verifc14.RefDigestFin("gzip", c.wireBody(), c.wireFin()), verifc14.RefDigestFin("deflate", c.wireBody(), c.wireFin()),
-		verifc14.RefDigestFin("br", c.wireBody(), c.wireFin()), verifc14.RefDigestFin("zstd", c.wireBody(), c.wireFin())}, " ")
+		c.refDigest("gzip"), c.refDigest("deflate"), c.refDigest("br"), c.refDigest("zstd")}, " ")
+}
+
+// refDigest: the meaning of the body under alg per the reference library (whole input at once).
+func (c *c14Case) refDigest(alg string) string {
+	if c.flipUnchecked() {
+		return "flip-unchecked"
+	}
+	if c.corrupted() {
+		return verifc14.RefCorruptDigest(alg, c.wireBody(), c.payload, c.wireFin())
+	}
+	return verifc14.RefDigestFin(alg, c.wireBody(), c.wireFin())
 }
 
 // wireBody: what the framing layer delivers (nothing for HEAD).
@@ -508,6 +605,10 @@ func (c *c14Case) oracle(o c14Obs) (ok bool, why string) {
 			return false, fmt.Sprintf("decoded body %s, original payload %s", verifc14.Digest(o.data, o.term), verifc14.Digest(c.payload, "eof"))
 		}
 	case "trunc":
+		// admissible: a read error (after a prefix of the payload), or exactly the payload
+		if o.term == "eof" && bytes.Equal(o.data, c.payload) {
+			return true, ""
+		}
 		if !strings.HasPrefix(o.term, "err") {
 			return false, fmt.Sprintf("truncated %s stream read as %s (no error)", alg, verifc14.Digest(o.data, o.term))
 		}
@@ -740,10 +841,9 @@ func c14RunLane(t *testing.T, s *verifh.Session, e *c14Env, cases []*c14Case, ne
 			human += " :: " + why
 		}
 		// the brotli library reports a truncated stream as a clean EOF (see the unit lane)
-		if !ok && !o.bodyNil && c.stream == "trunc" && len(c.ce) > 0 && c.ce[0] == "br" && c.auto && o.term == "eof" {
-			if _, _, term := verifc14.Ref("br", c.wire, io.EOF); term == "eof" {
-				class = "br-truncated-eof"
-			}
+		if !ok && !o.bodyNil && c.stream == "trunc" && len(c.ce) > 0 && c.ce[0] == "br" && c.auto && o.term == "eof" &&
+			len(o.data) < len(c.payload) && bytes.HasPrefix(c.payload, o.data) {
+			class = "br-truncated-eof"
 		}
 		if c.stream == "short" {
 			count("short:" + c.id[strings.LastIndex(c.id, "-")+1:])
@@ -781,7 +881,7 @@ func c14RunLane(t *testing.T, s *verifh.Session, e *c14Env, cases []*c14Case, ne
 					lenient = bytes.Equal(o.data, out) && o.term == term
 				}
 			}
-			s.Observe(c.id, lenient, class, true, human, o.answer())
+			s.Observe(c.id, lenient, class, true, human, o.answer(c))
 			continue
 		}
 		if o.rtErr != "" && strings.Contains(o.rtErr, "infra:") {
@@ -813,7 +913,7 @@ func c14RunLane(t *testing.T, s *verifh.Session, e *c14Env, cases []*c14Case, ne
 		if o.proto != int(c.proto[1]-'0') && o.rtErr == "" {
 			t.Fatalf("infra: case %s answered over HTTP/%d", c.id, o.proto)
 		}
-		s.Case("c14x "+c.args(), o.answer(), ok, class, o.unc || len(c.ce) > 0, human)
+		s.Case("c14x "+c.args(), o.answer(c), ok, class, o.unc || len(c.ce) > 0, human)
 	}
 	for _, k := range need {
 		if hist[k] == 0 {
@@ -895,7 +995,7 @@ func TestVerif_C14_cross(t *testing.T) {
 			if o.panicText != "" {
 				answers = append(answers, "panic")
 			} else {
-				answers = append(answers, o.answer())
+				answers = append(answers, o.answer(&c))
 			}
 			if cl := c.class(transportAsked); cl != "" && class == "" {
 				class = cl
@@ -914,7 +1014,7 @@ func TestVerif_C14_cross(t *testing.T) {
 		if o2.panicText != "" {
 			again = "panic"
 		} else {
-			again = o2.answer()
+			again = o2.answer(&c2)
 		}
 		idx := map[string]int{"h1": 0, "h2": 1, "h3": 2}[c2.proto]
 		sameReads := again == answers[idx]
@@ -961,16 +1061,20 @@ func TestVerif_C14_cross(t *testing.T) {
 	s.Finish()
 }
 
-// TestVerif_C14_h1gz: transport.go's own gzipReader (the HTTP/1.1 gzip branch) over a
-// bodyEOFSignal, driven like the unit lane of internal/compress: valid / truncated /
+// TestVerif_C14_h1gz: transport.go's own gzipReader (the HTTP/1.1 gzip branch), reached through
+// the real path (a scripted raw HTTP/1.1 peer, persistConn.readLoop, Response.Body) and driven
+// like the unit lane of internal/compress: valid / truncated /
 // bit-flipped / foreign streams, generated read sizes, reads after the end, Close before or
 // after j reads; vs the model automaton `h1gzRead` over the reference library's result.
 func TestVerif_C14_h1gz(t *testing.T) {
 	s := verifh.New(t, "C14", "h1gz",
-		"transport.go gzipReader{body: bodyEOFSignal{src}}: gzip streams {valid, multi-member, truncated at every offset of small streams + random, bit-flip, trailing garbage, not gzip, empty, body ending in a framing error} x chunked underlying body x 1-4 cycling Read sizes x {to the end + reads after it, Close before/after j reads}; model = h1gzRead over (gzip.NewReader result, output, end) of compress/gzip used directly; oracle: valid => payload+EOF, truncated => error, nothing after the end")
+		"transport.go gzipReader reached through a real HTTP/1.1 exchange with a scripted raw peer (close-delimited body = clean EOF where the bytes end; Content-Length larger than sent = framing error): gzip streams {valid, multi-member, truncated at every offset of small streams + random, bit-flip, trailing garbage, not gzip, empty, body ending in a framing error} x chunked underlying body x 1-4 cycling Read sizes x {to the end + reads after it, Close before/after j reads}; model = h1gzRead over (gzip.NewReader result, output, end) of compress/gzip used directly; oracle: valid => payload+EOF, truncated => error, nothing after the end")
 	r := s.Rand()
 	hist := map[string]int{}
 	count := func(k string) { s.Count(k); hist[k]++ }
+	peer := c14NewRawH1(t)
+	defer peer.ln.Close()
+	cl := C().EnableForceHTTP1().DisableAutoReadResponse().SetTimeout(30 * time.Second)
 	type stream struct {
 		kind          string
 		payload, wire []byte
@@ -1018,13 +1122,15 @@ func TestVerif_C14_h1gz(t *testing.T) {
 		}
 	}
 	for i, st := range streams {
-		open, out, term := verifc14.Ref("gzip", st.wire, st.fin)
+		sizes := verifc14.Sizes(r)
+		// reference = compress/gzip used directly with the same Read sizes (how the bytes are
+		// segmented on the connection cannot be scripted; gzip/flate do not depend on it)
+		open, out, term := verifc14.RefSched("gzip", st.wire, st.fin, 0, sizes)
 		if len(out) > 8192 {
 			out, st.payload = nil, nil
 			st.wire, st.kind, st.fin = nil, "empty", io.EOF
 			open, out, term = verifc14.Ref("gzip", nil, io.EOF)
 		}
-		sizes := verifc14.Sizes(r)
 		var extra []int
 		for k := r.Intn(4); k > 0; k-- {
 			extra = append(extra, 1+r.Intn(64))
@@ -1042,20 +1148,33 @@ func TestVerif_C14_h1gz(t *testing.T) {
 				extra = append(extra, 0) // read on a closed body: sticky for empty buffers too
 			}
 		}
-		src := &verifc14.Src{Data: append([]byte(nil), st.wire...), Fin: st.fin}
-		if r.Intn(2) == 0 {
-			src.Chunk = 1 + r.Intn(40)
-		}
 		var got string
 		var raw []byte
 		id := fmt.Sprintf("h1gz/%s#%d", st.kind, i)
 		human := fmt.Sprintf("h1 gzipReader %s payload=%dB wire=%dB sizes=%v closeAfter=%d extra=%v ref=(%s,%dB,%s)", st.kind, len(st.payload), len(st.wire), sizes, closeAfter, extra, open, len(out), term)
+		infra := ""
 		if p, bad := verifh.Safely(func() {
-			gz := &gzipReader{body: &bodyEOFSignal{body: src}}
-			got, raw = c14Script(gz, out, closeAfter, sizes, extra)
-			gz.Close()
+			// the real path: default client (the transport asks for gzip), response says gzip =>
+			// Response.Body is transport.go's gzipReader over the connection's body
+			ctx, cancel := context.WithTimeout(context.Background(), 30*time.Second)
+			defer cancel()
+			resp, err := cl.R().SetContext(ctx).Get(peer.script(fmt.Sprintf("/%d", i), st.wire, st.fin))
+			if err != nil {
+				infra = "round trip: " + err.Error()
+				return
+			}
+			if !resp.Response.Uncompressed || resp.Body == nil {
+				infra = "the response was not routed through the gzip branch"
+				return
+			}
+			got, raw = c14Script(resp.Body, out, closeAfter, sizes, extra)
+			resp.Body.Close()
 		}); bad {
 			s.Crash(id, human, p, "")
+			continue
+		}
+		if infra != "" {
+			s.Observe(id, false, "", true, human+" :: "+infra, infra)
 			continue
 		}
 		ok := true
@@ -1065,11 +1184,12 @@ func TestVerif_C14_h1gz(t *testing.T) {
 			switch st.kind {
 			case "valid", "multi":
 				ok = gotData == verifh.Hex(string(st.payload)) && gotTerm == "eof"
-			case "trunc", "srcerr":
+			case "trunc":
+				// admissible: a read error after a prefix of the payload, or exactly the payload
+				ok = strings.HasPrefix(gotTerm, "err") && bytes.HasPrefix(st.payload, raw) ||
+					gotTerm == "eof" && bytes.Equal(raw, st.payload)
+			case "srcerr":
 				ok = strings.HasPrefix(gotTerm, "err")
-				if st.kind == "trunc" && !bytes.HasPrefix(st.payload, raw) {
-					ok = false
-				}
 			case "flip":
 				ok = strings.HasPrefix(gotTerm, "err") || gotData == verifh.Hex(string(st.payload))
 			}
@@ -1269,6 +1389,120 @@ func TestVerif_C14_witness(t *testing.T) {
 	}
 	if hist["ok"] == 0 {
 		t.Errorf("bucket ok not reached")
+	}
+	s.Finish()
+}
+
+// TestVerif_C14_overlap_e2e: overlapping decoded responses through the real clients. On each
+// protocol: a decoded response is read partly and closed twice (explicit + deferred Close), then
+// 2-4 further decoded responses are opened together and read alternately in generated pieces;
+// every one must deliver exactly its own payload and a clean EOF (nothing shared between
+// responses - reader pools, sticky fields - may leak from one body into another).
+func TestVerif_C14_overlap_e2e(t *testing.T) {
+	s := verifh.New(t, "C14", "overlap_e2e",
+		"per protocol: response A (gzip/deflate/br/zstd under transport-gzip or AutoDecompress) read for 0..k bytes then Closed twice; then 2-4 responses with distinct payloads opened before any is read and read alternately with sizes from {1..65536}; oracle: each body = its own payload + EOF; non-trivial = all")
+	e := c14NewEnv(t, "h1", "h2", "h3")
+	defer e.close()
+	r := s.Rand()
+	hist := map[string]int{}
+	seq := 0
+	get := func(proto string, auto bool, alg string, payload []byte) (*Response, context.CancelFunc, error) {
+		seq++
+		c := &c14Case{id: fmt.Sprintf("ov-%d", seq), proto: proto, auto: auto, method: "GET", ce: []string{alg}, ctype: "application/octet-stream",
+			payload: payload, wire: verifc14.Compress(alg, payload), stream: "valid", alg: alg, framing: "cl"}
+		e.origin.add(c)
+		ctx, cancel := context.WithTimeout(context.Background(), 30*time.Second)
+		resp, err := e.client(proto, false, auto).R().SetContext(ctx).SetHeader("X-C14-Case", c.id).Get(e.base[proto] + "/")
+		return resp, cancel, err
+	}
+	for _, proto := range []string{"h1", "h2", "h3"} {
+		for sc, n := 0, verifh.N(14, 300); sc < n; sc++ {
+			auto := r.Intn(2) == 0
+			pick := func() string {
+				if !auto || r.Intn(2) == 0 {
+					return "gzip"
+				}
+				return verifh.Pick(r, verifc14.Algs)
+			}
+			bad := ""
+			id := fmt.Sprintf("%s-overlap#%d", proto, sc)
+			ptext, panicked := verifh.Safely(func() {
+				// A: partly read, closed twice
+				pa := verifc14.Payload(r, 1+r.Intn(3))
+				ra, ca, err := get(proto, auto, pick(), pa)
+				if err != nil {
+					bad = "infra: " + err.Error()
+					return
+				}
+				if k := r.Intn(3); k > 0 {
+					ra.Body.Read(make([]byte, k*7))
+				}
+				ra.Body.Close()
+				ra.Body.Close()
+				ca()
+				type ov struct {
+					resp    *Response
+					cancel  context.CancelFunc
+					payload []byte
+					got     []byte
+					done    bool
+				}
+				var open []*ov
+				for k := 2 + r.Intn(3); k > 0; k-- {
+					pc := 1 + r.Intn(3)
+					if r.Intn(6) == 0 {
+						pc = 4
+					}
+					p := verifc14.Payload(r, pc)
+					resp, cancel, err := get(proto, auto, pick(), p)
+					if err != nil {
+						bad = "infra: " + err.Error()
+						return
+					}
+					open = append(open, &ov{resp: resp, cancel: cancel, payload: p})
+				}
+				for left := len(open); left > 0 && bad == ""; {
+					o := open[r.Intn(len(open))]
+					if o.done {
+						continue
+					}
+					buf := make([]byte, verifh.Pick(r, []int{1, 7, 100, 512, 4096, 65536}))
+					k, err := o.resp.Body.Read(buf)
+					o.got = append(o.got, buf[:k]...)
+					if !bytes.HasPrefix(o.payload, o.got) {
+						bad = fmt.Sprintf("a body delivered bytes that are not its own payload's (at %d of %d)", len(o.got), len(o.payload))
+					}
+					if err != nil {
+						o.done = true
+						left--
+						if err != io.EOF || len(o.got) != len(o.payload) {
+							bad = fmt.Sprintf("a body ended after %d of %d bytes with %v", len(o.got), len(o.payload), err)
+						}
+					}
+				}
+				for _, o := range open {
+					o.resp.Body.Close()
+					o.cancel()
+				}
+			})
+			if panicked {
+				s.Crash(id, id, ptext, "")
+				continue
+			}
+			if strings.HasPrefix(bad, "infra:") {
+				t.Fatalf("%s", bad)
+			}
+			if bad == "" {
+				hist[proto]++
+			}
+			s.Count(proto)
+			s.Observe(id, bad == "", "", true, id+" auto="+fmt.Sprint(auto)+" "+bad, bad)
+		}
+	}
+	for _, p := range []string{"h1", "h2", "h3"} {
+		if hist[p] == 0 {
+			t.Errorf("bucket %s not reached", p)
+		}
 	}
 	s.Finish()
 }
